@@ -10,7 +10,7 @@ integration tests, and — when those still pass — through the quick checks vi
 checks first, stopping at the first check that reports a VIOLATION. Worktree, build output and
 out/alt-<hash> are removed after every mutant.
 
-usage: selftest/mutation_run.py [--n 120] [--seed 1] [-j 4] [--files writer.rs,reader.rs,...] [--all-checks]
+usage: selftest/mutation_run.py [--n 120] [--seed 1] [-j 4] [--files writer.rs,reader.rs,...] [--all-checks] [--skip-seen]
 output: selftest/mutation/results-<seed>.jsonl (one line per mutant), summary on stdout.
 Not part of any registered command.
 """
@@ -155,7 +155,7 @@ def run_one(m, idx, all_checks):
 
 def main():
     args = sys.argv[1:]
-    n, seed, jobs, files, all_checks = 120, 1, 4, None, False
+    n, seed, jobs, files, all_checks, skip_seen = 120, 1, 4, None, False, False
     while args:
         a = args.pop(0)
         if a == '--n':
@@ -168,11 +168,21 @@ def main():
             files = args.pop(0).split(',')
         elif a == '--all-checks':
             all_checks = True
+        elif a == '--skip-seen':
+            skip_seen = True      # leave out mutants already in selftest/mutation/results-*.jsonl
     files = files or ['writer.rs', 'reader.rs', 'header.rs', 'lib.rs', 'record/mod.rs', 'record/io.rs', 'record/bbox.rs', 'record/point.rs', 'record/multipoint.rs',
                       'record/polyline.rs', 'record/polygon.rs', 'record/multipatch.rs', 'record/traits.rs', 'geo_traits_impl.rs']
     pool = []
     for f in files:
         pool += mutants_of(f)
+    if skip_seen:
+        import glob
+        seen = set()
+        for f in glob.glob(os.path.join(OUTDIR, 'results-*.jsonl')):
+            for l in open(f):
+                r = json.loads(l)
+                seen.add((r['file'], r['line'], r['new']))
+        pool = [m for m in pool if (m['file'], m['line'], m['new']) not in seen]
     rnd = random.Random(seed)
     rnd.shuffle(pool)
     # stratified: round-robin over (file, kind) so that no file or operator dominates the sample
